@@ -5,6 +5,8 @@ Traces == ndJsonDeserialize(IOEnv.TRACE_FILE)
 VARIABLES vvTid, vvPos, vvBad
 C(name, exp) == [c |-> name, e |-> exp]
 Want(e, exp) == IF e.raised # "" THEN <<C("must-not-raise", exp)>> ELSE IF e.obs # exp THEN <<C("value", exp)>> ELSE <<>>
+RECURSIVE CatAll(_,_,_)
+CatAll(ps, q, acc) == IF q > Len(ps) THEN acc ELSE CatAll(ps, q+1, acc \o ps[q])
 Judge(e) ==
   CASE e.op = "tlsh" ->
          LET x == TlshHash(e.cfg, e.data, e.force) IN
@@ -23,6 +25,7 @@ Judge(e) ==
          ELSE IF \E q \in 1..Len(e.obs) : e.obs[q] # d THEN <<C("distance (objects, bytes, mixed, both orders)", d)>> ELSE <<>>
     [] e.op = "nil" -> Want(e, NilsimsaT(e.target, e.data))
     [] e.op = "nil_split" -> Want(e, NilsimsaT(e.target, e.a \o e.b))
+    [] e.op = "nil_multi" -> Want(e, NilsimsaT(e.target, CatAll(e.pieces, 1, <<>>)))     \* any number of pieces, any byte positions
     [] e.op = "nil_dist" -> LET d == NilDistance(e.d1, e.d2) IN Want(e, <<d, d>>)
 Init == vvTid \in 1..Len(Traces) /\ vvPos = 0 /\ vvBad = 0
 Next == /\ vvPos < Len(Traces[vvTid].ev)
